@@ -31,6 +31,10 @@ fn main() {
     );
     vcheck::core::SEED.store(seed, std::sync::atomic::Ordering::Relaxed);
     match args[1].as_str() {
+        "comview" => {
+            // vcheck comview "<expression>": the expression as the evaluator's com sees it (C16)
+            println!("{}", props::c16::com_view(args.get(2).unwrap_or_else(|| usage())).unwrap_or_else(|| "(unchanged)".into()));
+        }
         "try" => {
             // vcheck try "<source>" "<args in classic syntax>" [--opt]
             let src = args.get(2).unwrap_or_else(|| usage());
